@@ -94,4 +94,11 @@ def stages(tier, rng, only=None):
     if tier == "thorough":
         out.append(ac.stage("grid3x3", PID, lambda: ac.cases(grids.datasets(3, 3), cfgs, SCHEMES, flags=(0,)), _nt))
         out.append(ac.stage("grid4x2", PID, lambda: ac.cases(grids.datasets(4, 2), cfgs, SCHEMES, flags=(0,)), _nt))
+    def bench():
+        cs = ac.cases(grids.datasets(3, 2)[::9] + [ac.random_dataset(rng, 6, 5, nmin=2) for _ in range(40)],
+                      ["Borda", "BordaBid"], SCHEMES, all_schemes=True, flags=(1,))
+        for c in cs:
+            c["bench"] = 1
+        return cs
+    out.append(ac.stage("bench_mode", PID, bench, _nt))
     return [s for s in out if not only or s.name == only]
